@@ -94,6 +94,7 @@ def run(chk):
     part(datatype_schemas(), 18 if quick else 24, 3 if quick else 4)
     part(schemas.family(chk.seed + 1, 4 if quick else 20), 18 if quick else 24, 4 if quick else 5)
     chk.exhaustive = True
+    chk.note("schema_digest_mismatches", len(loadgen.DIGEST_MISMATCH))
     chk.note("schemas", len(docs))
     chk.assumptions += ["converted values are compared by repr() with reference conversions (harness/zcv/refconv.py)",
                         "the abstract schema record equals what the real parser builds (digest precondition)"]
